@@ -263,28 +263,65 @@ def _rp_layout(lib):
     return roles
 
 
-def _rp_value(lib, roles, name, flag):
-    from ..peval import Struct
-    vt = roles.get("value_ty", "")
-    if vt.startswith("("):
-        return (name, flag)
-    a = lib.adts.get(vt.split("<")[0])
-    fields = {}
-    for f in (a["variants"][0]["fields"] if a else []):
-        fields[f["name"]] = name if "String" in f.get("tys", "") else (flag if f.get("tys") == "bool" else None)
-    return Struct(vt.split("<")[0], fields)
+class _Encoding:
+    """How the implementation records (new name, reusable?) in its scope dictionaries -- learnt from the two public callbacks
+    that create such records: Scope::insert_self (kept name) and Scope::insert (renamed, reusable)."""
+    def __init__(self, ctx, roles, processor, call):
+        import copy
+        from ..peval import Ref, PyMap
+        self.copy = copy
+        self.templates = {}
+        rp = processor([[]], [], [], [])
+        call("insert_self", rp)
+        top = rp.fields[roles["stack"]][-1] if rp.fields[roles["stack"]] else None
+        if isinstance(top, PyMap) and len(top.d) == 1:
+            (k, v), = top.d.items()
+            self.templates[False] = (k, v)
+        cell = {"v": "declared"}
+        rp = processor([[]], ["pooled"], [], [])
+        call("insert", rp, Ref(cell, "v"))
+        top = rp.fields[roles["stack"]][-1] if rp.fields[roles["stack"]] else None
+        if isinstance(top, PyMap) and len(top.d) == 1:
+            (k, v), = top.d.items()
+            self.templates[True] = ("pooled", v)
 
+    def ok(self):
+        return set(self.templates) == {True, False} and self._subst(self.templates[True][1], self.templates[True][0], "x") != self._subst(self.templates[False][1], self.templates[False][0], "x")
 
-def _rp_unvalue(v):
-    from ..peval import Struct
-    if isinstance(v, tuple) and len(v) == 2:
+    def _subst(self, v, old, new):
+        from ..peval import Struct, Enum
+        if isinstance(v, str):
+            return new if v == old else v
+        if isinstance(v, tuple):
+            return tuple(self._subst(x, old, new) for x in v)
+        if isinstance(v, (Struct, Enum)):
+            c = self.copy.copy(v)
+            c.fields = {k: self._subst(x, old, new) for k, x in v.fields.items()}
+            return c
         return v
-    if isinstance(v, Struct):
-        names = [x for x in v.fields.values() if isinstance(x, str)]
-        flags = [x for x in v.fields.values() if isinstance(x, bool)]
-        if len(names) == 1 and len(flags) == 1:
-            return (names[0], flags[0])
-    return None
+
+    def value(self, name, flag):
+        old, tmpl = self.templates[flag]
+        return self._subst(self.copy.deepcopy(tmpl), old, name)
+
+    def decode(self, v):
+        """(name, reusable) of a recorded value, or None."""
+        for flag, (old, tmpl) in self.templates.items():
+            names = []
+
+            def collect(x):
+                from ..peval import Struct, Enum
+                if isinstance(x, str):
+                    names.append(x)
+                elif isinstance(x, tuple):
+                    [collect(y) for y in x]
+                elif isinstance(x, (Struct, Enum)):
+                    [collect(y) for y in x.fields.values()]
+            collect(v)
+            for n in names:
+                if self._subst(self.copy.deepcopy(tmpl), old, n) == v:
+                    return (n, flag)
+        return None
 
 
 def pool(R, ctx, rid_override=None, only=None):
@@ -338,6 +375,9 @@ def pool(R, ctx, rid_override=None, only=None):
         except peval.OutOfFuel:
             return None, ["no termination"]
         return fn, pe.unknown_reasons
+    enc = _Encoding(ctx, roles, processor, call)
+    if not R.require(rid, "anchor:record-encoding", enc.ok(), ctx.adt_where(RP), "how (name, reusable) is recorded, learnt from insert_self / insert: %s" % enc.templates):
+        return
     # ---- pop ---------------------------------------------------------------------------------------
     entries = [("x", "b", True), ("self", "self", False), ("y", "a", True), ("f", "f", False)]
     pools = set()
@@ -345,7 +385,7 @@ def pool(R, ctx, rid_override=None, only=None):
     if R.require(rid, "anchor:pop", fn is not None, "", "not found"):
         problems = []
         for perm in itertools.permutations(entries):
-            rp = processor([[("outer", _rp_value(lib, roles, "o", True))], [(k, _rp_value(lib, roles, n, fl)) for k, n, fl in perm]], ["p"], [], [])
+            rp = processor([[("outer", enc.value("o", True))], [(k, enc.value(n, fl)) for k, n, fl in perm]], ["p"], [], [])
             _, why = call("pop", rp)
             got = rp.fields[roles["pool"]]
             got = got.rest() if isinstance(got, Iter) else got
@@ -369,7 +409,7 @@ def pool(R, ctx, rid_override=None, only=None):
         rp = processor([[]], [], [], [])
         _, why = call("insert_self", rp)
         top = rp.fields[roles["stack"]][-1] if rp.fields[roles["stack"]] else None
-        v = _rp_unvalue(top.d.get("self")) if isinstance(top, PyMap) else None
+        v = enc.decode(top.d.get("self")) if isinstance(top, PyMap) else None
         R.ob(rid, "insert_self|reuse=false", v == ("self", False), ctx.where(fn), "`self` recorded as %s %s" % (v, why[:1] if v is None else ""))
     fn = lib.fn(SCOPE_IMPL + "insert_local_function")
     if R.require(rid, "anchor:insert_local_function", fn is not None, "", "not found"):
@@ -383,7 +423,7 @@ def pool(R, ctx, rid_override=None, only=None):
         rp = processor([[]], [], [], [], include=False)
         _, why = call("insert_local_function", rp, func)
         top = rp.fields[roles["stack"]][-1] if rp.fields[roles["stack"]] else None
-        v = _rp_unvalue(top.d.get("f")) if isinstance(top, PyMap) else None
+        v = enc.decode(top.d.get("f")) if isinstance(top, PyMap) else None
         R.ob(rid, "insert_local_function|kept-name-reuse=false", v == ("f", False), ctx.where(fn), "kept function name recorded as %s %s" % (v, why[:1] if v is None else ""))
     # ---- insert ---------------------------------------------------------------------------------------
     fn = lib.fn(SCOPE_IMPL + "insert")
@@ -394,7 +434,7 @@ def pool(R, ctx, rid_override=None, only=None):
             rp = processor([[]], pool_, avoid, stream)
             _, why = call("insert", rp, Ref(cell, "v"))
             top = rp.fields[roles["stack"]][-1] if rp.fields[roles["stack"]] else None
-            rec = _rp_unvalue(top.d.get("orig")) if isinstance(top, PyMap) else None
+            rec = enc.decode(top.d.get("orig")) if isinstance(top, PyMap) else None
             ok = cell["v"] == want and rec == (want, True)
             R.ob(rid, "insert|%s" % label, ok, ctx.where(fn),
                  "declaration renamed to `%s`, recorded as %s (expected `%s`, reusable) %s" % (cell["v"], rec, want, why[:1] if not ok else ""))
